@@ -583,7 +583,11 @@ def compute_mro(cls:'Class') -> Sequence[Union['Class', str]]:
                     finalbases.append(base.fullName())
                 else:
                     # Only re-resolve the base object if the base was None.
-                    resolved_base = o.parent.resolveName(str_base)
+                    # The name as it was expanded where the class is defined comes first:
+                    # the scope might bind its first component to something else further down.
+                    resolved_base = o.system.objForFullName(o._initialbases[i])
+                    if not isinstance(resolved_base, Class):
+                        resolved_base = o.parent.resolveName(str_base)
                     if isinstance(resolved_base, Class):
                         base = resolved_base
                         finalbaseobjects.append(base)
